@@ -367,7 +367,7 @@ class OrderIndependence(Unit):
         "C19.perm.extract_vars": {"props": ["C19"], "text":
             "extract_vars returns the same list for every iteration order of its internal sets (the engine explores all orders for <= 3 elements, rotations and reversal beyond): the inspection report cannot depend on PYTHONHASHSEED through it"},
     }
-    assumptions = ["BOUNDED inputs: statements with tied variable names across languages / expressions; set iteration modelled as arbitrary permutation (exhaustive for <= 3 elements)"]
+    assumptions = ["BOUNDED inputs: six statements with variable names tied across languages and across several expressions of one language; set iteration modelled as arbitrary permutation (exhaustive for <= 3 elements)"]
     trusted = ["pyvc interpreter (set-order model)", "re"]
 
     def run_split(self, ctx, split):
@@ -377,6 +377,9 @@ class OrderIndependence(Unit):
             "{{ ctx().a }} <% ctx().a %> <% ctx().b %>",
             {"p": "<% ctx().x %>", "q": "{{ ctx().x }}"},
             ["<% ctx().m %> <% ctx().n %>", "{{ ctx().m }}"],
+            # one variable referred to from several values in the same language: entries tied on name and type
+            {"p": "<% ctx().x %>", "q": "<% ctx().x + 1 %>", "r": "<% ctx().x * 2 %>"},
+            ["{{ ctx().y }}", "{{ ctx().y + 1 }}", "<% ctx().y %>"],
         ]
         for stmt in statements:
             outs = []
@@ -410,7 +413,7 @@ class OrderIndependence(Unit):
             ctx.eng.explore(thunk2)
             self._oblige_after(ctx, "C19.perm.evaluate", all(o == outs[0] for o in outs),
                                {"statement": stmt, "orders_explored": len(outs), "distinct_results": len(set(outs))})
-        ctx.bounded.append({"unit": self.name, "bound": "4 statements + 2 evaluations, all set orders"})
+        ctx.bounded.append({"unit": self.name, "bound": "6 statements + 2 evaluations, all set orders"})
 
     def _oblige_after(self, ctx, name, ok, info):
         # evaluated outside a path: record directly (concrete verdict)
